@@ -189,14 +189,16 @@ def B4_reward_fold(ctx):
     for p in feasible(g.paths()):
         ca = [e for e in p.events if e.kind == 'call' and callee_matches(e.d['callee'], '::checked_add')]
         ud = [e for e in p.events if e.kind == 'call' and callee_matches(e.d['callee'], ('::unwrap_or_default', '::unwrap_or'))]
-        if len(ca) != 1 or not ud:
+        absent_handled = bool(ud) or any(of and strip(of[0]) == ('arg', 2) for of in (option_fact(a) for a in p.events))
+        if len(ca) != 1 or not absent_handled:
             bad.append(p)
             continue
         some = [a for a in p.events if a.kind == 'atom' and a.d['term'][0] == 'discr' and a.d['term'][1] == ca[0].d['result']]
         w = assigns(p, 'AccountInfo.balance')
         if some and some[0].d['outcome'] == 'Some' and not (w and mentions(w[0].d['value'], ca[0].d['result'])):
             bad.append(p)
-        if some and some[0].d['outcome'] == 'None' and w:
+        if some and some[0].d['outcome'] == 'None' and w and not all(is_field(strip(x.d['value']), 'AccountInfo.balance') for x in w):
+            # (on overflow the balance stays: no write, or the old balance written back)
             bad.append(p)
         if not (is_field(strip(ca[0].d['args'][0]), 'AccountInfo.balance') and is_field(strip(ca[0].d['args'][1]), 'DeferredBeneficiaryReward.0')):
             bad.append(p)
